@@ -124,39 +124,71 @@ impl ShardResult {
     }
 }
 
-/// Runs from, from+stride, … < to on the calling thread; every run in a fresh OS thread, so
-/// thread-local state of the code under test cannot leak from one run into the next and a run
-/// is a function of (seed, index) alone.
+/// Size of a block of consecutive run indices (the unit of work of a shard) and the share of
+/// blocks that are *marathons*: all runs of the block execute one after another on ONE fresh
+/// thread, so that thread-local state of the code under test accumulates over ~9 000 events
+/// (a counter that leaks, an arena that grows); in the other blocks every run gets a fresh
+/// thread. What a run's thread has seen before is a function of (seed, run index) either way.
+const BLOCK: u64 = 256;
+fn is_marathon(seed: u64, block: u64) -> bool {
+    simcore::stable_hash(&(seed, "marathon", block)) % 4 == 0
+}
+
+/// Blocks from, from+stride, … (block b = runs b*BLOCK .. (b+1)*BLOCK, clipped to `to`).
 fn run_range(w: &Arc<World>, seed: u64, from: u64, to: u64, stride: u64, deadline: Instant) -> ShardResult {
     let mut r = ShardResult { stats: Stats::default(), viols: Vec::new(), digests: Vec::new(), n: 0, events: 0, samples: Vec::new() };
-    let mut i = from;
-    while i < to {
-        if r.n % 256 == 0 && Instant::now() > deadline {
+    let mut block = from;
+    while block * BLOCK < to {
+        if Instant::now() > deadline {
             break;
         }
-        let w2 = w.clone();
-        let one = match std::thread::Builder::new().stack_size(8 << 20).spawn(move || run_one(&w2, seed, i)).map(|h| h.join()) {
-            Ok(Ok(x)) => x,
-            _ => {
-                eprintln!("bufsim: harness error: run {i} could not be executed");
-                std::process::exit(2);
+        let (lo, hi) = (block * BLOCK, ((block + 1) * BLOCK).min(to));
+        let marathon = is_marathon(seed, block);
+        let mut results: Vec<(u64, sim::RunResult)> = Vec::new();
+        if marathon {
+            let w2 = w.clone();
+            match std::thread::Builder::new().stack_size(8 << 20).spawn(move || (lo..hi).map(|i| (i, sim::run_one_opts(&w2, seed, i, false))).collect::<Vec<_>>()).map(|h| h.join()) {
+                Ok(Ok(v)) => results = v,
+                _ => {
+                    eprintln!("bufsim: harness error: marathon block {block} could not be executed");
+                    std::process::exit(2);
+                }
             }
-        };
-        r.stats.merge(&one.stats);
-        r.digests.push((i, one.digest));
-        r.events += one.events as u64;
-        r.n += 1;
-        if let Some(s) = one.sample {
-            if r.samples.len() < 2 {
-                r.samples.push(s);
+        } else {
+            for i in lo..hi {
+                let w2 = w.clone();
+                match std::thread::Builder::new().stack_size(8 << 20).spawn(move || run_one(&w2, seed, i)).map(|h| h.join()) {
+                    Ok(Ok(x)) => results.push((i, x)),
+                    _ => {
+                        eprintln!("bufsim: harness error: run {i} could not be executed");
+                        std::process::exit(2);
+                    }
+                }
             }
         }
-        if let Some((v, doc)) = one.violation {
-            if r.viols.len() < 20 {
-                r.viols.push((i, v, doc));
+        for (i, one) in results {
+            r.stats.merge(&one.stats);
+            if marathon {
+                r.stats.bump("runs_inside_marathons");
+            }
+            r.digests.push((i, one.digest));
+            r.events += one.events as u64;
+            r.n += 1;
+            if let Some(s) = one.sample {
+                if r.samples.len() < 2 {
+                    r.samples.push(s);
+                }
+            }
+            if let Some((v, mut doc)) = one.violation {
+                if marathon {
+                    doc["marathon"] = json!({"block": block, "from": lo, "upto": i, "note": "the runs from..=upto are executed one after another on one thread; the violation is judged in the last one"});
+                }
+                if r.viols.len() < 20 {
+                    r.viols.push((i, v, doc));
+                }
             }
         }
-        i += stride;
+        block += stride;
     }
     r
 }
@@ -445,6 +477,26 @@ fn replay(file: &Path) -> i32 {
                 0
             }
             None => 2,
+        };
+    }
+    if !v["marathon"].is_null() {
+        let (from, upto) = (v["marathon"]["from"].as_u64().unwrap_or(0), v["marathon"]["upto"].as_u64().unwrap_or(0));
+        let seed = v["seed"].as_u64().unwrap_or(1);
+        let w = Arc::new(world(&verif));
+        let h = std::thread::Builder::new().stack_size(8 << 20).spawn(move || (from..=upto).map(|i| sim::run_one_opts(&w, seed, i, false)).last()).map(|h| h.join());
+        return match h {
+            Ok(Ok(Some(last))) => match last.violation {
+                Some((x, _)) => {
+                    println!("reproduced: law {} [{}::{}] in run {upto} after runs {from}..{upto} on the same thread — {}", x.law, x.module, x.ty, x.detail);
+                    println!("VIOLATION property=C18 replay={}", file.display());
+                    1
+                }
+                None => {
+                    println!("not reproduced on the current tree");
+                    0
+                }
+            },
+            _ => 2,
         };
     }
     let w = world(&verif);
